@@ -145,6 +145,11 @@ class NpCalls:
                      litconst=a0.litconst)
             return out
         out = as_array(a0).w(deps=d)
+        if has_const(a0) and isinstance(cval(a0), (tuple, list)) and out.litconst is None:
+            try:
+                out = out.w(litconst=('c', [tuple(x) if isinstance(x, (list, tuple)) else x for x in cval(a0)]), ty='ndarray', store='fresh', fresh=True)
+            except TypeError:
+                pass
         if a0.ty not in ('list', 'tuple', 'generator', 'ndarray') and a0.ty is not None:
             out = a0.w(ty='ndarray', store='fresh', fresh=True, deps=d)
         if a0.tuple_of is not None:
@@ -262,6 +267,20 @@ class NpCalls:
         return const(None)
 
     np_place = np_putmask
+
+    def np_add_at(self, interp, st, args, kwargs, node):
+        """np.add.at(a, indices, b): unbuffered a[indices] += b (every occurrence of an index counts)"""
+        if len(args) >= 2:
+            interp.emit('store', node, kind='add_at', base=as_array(args[0]), index=args[1], value=args[2] if len(args) > 2 else const(1), stmt=None)
+        return const(None)
+
+    def np_reshape(self, interp, st, args, kwargs, node):
+        a = as_array(args[0]) if args else TOP
+        shp = self.arg(args, kwargs, 1, 'newshape') or kwargs.get('shape')
+        if shp is None:
+            return a.w(axes=None)
+        sargs = list(shp.elts) if shp.elts is not None else [shp]
+        return self.array_method(interp, st, a, 'reshape', sargs, {}, node)
 
     def np_swapaxes(self, interp, st, args, kwargs, node):
         return self.swapaxes(as_array(args[0]), args[1], args[2]).w(deps=self.deps_of(args, kwargs)) if len(args) == 3 else as_array(args[0]).w(axes=None)
